@@ -604,6 +604,7 @@ func (f *frame) binop(op token.Token, xs, ys Sym, xt, rt types.Type, cur *State,
 	}
 	// integers
 	var t Term
+	var resBits *big.Int
 	switch op {
 	case token.ADD:
 		t = fmt.Sprintf("(+ %s %s)", a, b)
@@ -620,19 +621,30 @@ func (f *frame) binop(op token.Token, xs, ys Sym, xt, rt types.Type, cur *State,
 	case token.SHL:
 		if n, ok := smallConst(b); ok {
 			t = fmt.Sprintf("(* %s %s)", a, pow2(n))
+			resBits = new(big.Int).And(new(big.Int).Lsh(vc.bitsOf(a, xt), uint(n)), all64)
 		} else {
 			t = fmt.Sprintf("(shl %s %s)", a, b)
 		}
 	case token.SHR:
 		if n, ok := smallConst(b); ok {
 			t = fmt.Sprintf("(div %s %s)", a, pow2(n))
+			if _, signed, _ := intInfo(xt); !signed {
+				resBits = new(big.Int).Rsh(vc.bitsOf(a, xt), uint(n))
+			}
 		} else {
 			t = fmt.Sprintf("(shr %s %s)", a, b)
 		}
 	case token.AND:
 		t = bitAnd(a, b)
+		resBits = new(big.Int).And(vc.bitsOf(a, xt), vc.bitsOf(b, xt))
 	case token.OR:
-		t = bitOr(a, b)
+		ma, mb := vc.bitsOf(a, xt), vc.bitsOf(b, xt)
+		if new(big.Int).And(ma, mb).Sign() == 0 {
+			t = fmt.Sprintf("(+ %s %s)", a, b)
+		} else {
+			t = bitOr(a, b)
+		}
+		resBits = new(big.Int).Or(ma, mb)
 	case token.XOR:
 		t = fmt.Sprintf("(bitxor %s %s)", a, b)
 	case token.AND_NOT:
@@ -641,7 +653,41 @@ func (f *frame) binop(op token.Token, xs, ys Sym, xt, rt types.Type, cur *State,
 	default:
 		unsup("int op %s", op)
 	}
-	return sv{vc.define("i", "Int", wrapInt(rt, t))}
+	res := vc.define("i", "Int", wrapInt(rt, t))
+	if resBits != nil {
+		if bits, _, ok := intInfo(rt); ok && bits < 64 {
+			resBits = new(big.Int).And(resBits, new(big.Int).Sub(new(big.Int).Lsh(big.NewInt(1), uint(bits)), big.NewInt(1)))
+		}
+		vc.setBits(res, resBits)
+	}
+	return sv{res}
+}
+
+// ---- possibly-set-bits tracking (64-bit two's complement patterns), used to turn x|y into x+y when disjoint
+
+var all64 = new(big.Int).Sub(new(big.Int).Lsh(big.NewInt(1), 64), big.NewInt(1))
+
+func (vc *VC) bitsOf(t Term, typ types.Type) *big.Int {
+	if c, ok := bigConst(t); ok {
+		if c.Sign() >= 0 {
+			return c
+		}
+		return new(big.Int).And(new(big.Int).Add(new(big.Int).Lsh(big.NewInt(1), 64), c), all64)
+	}
+	if m, ok := vc.bits[t]; ok {
+		return m
+	}
+	if bits, signed, ok := intInfo(typ); ok && !signed {
+		return new(big.Int).Sub(new(big.Int).Lsh(big.NewInt(1), uint(bits)), big.NewInt(1))
+	}
+	return all64
+}
+
+func (vc *VC) setBits(t Term, m *big.Int) {
+	if vc.bits == nil {
+		vc.bits = map[Term]*big.Int{}
+	}
+	vc.bits[t] = m
 }
 
 func quoTerm(a, b Term) Term {
@@ -771,12 +817,22 @@ func (f *frame) convert(x *ssa.Convert, cur *State) Sym {
 				t := vc.scalar(v)
 				// widening conversions that preserve the value need no wrap
 				if (fsg == tsg && tb >= fb) || (!fsg && tsg && tb > fb) {
+					if !fsg {
+						if _, have := vc.bits[t]; !have {
+							vc.setBits(t, vc.bitsOf(t, from))
+						}
+					}
 					return sv{t}
 				}
 				if fsg && tsg && tb == 64 {
 					return sv{t}
 				}
-				return sv{vc.define("cv", "Int", wrapInt(to, t))}
+				r := vc.define("cv", "Int", wrapInt(to, t))
+				m := new(big.Int).And(vc.bitsOf(t, from), new(big.Int).Sub(new(big.Int).Lsh(big.NewInt(1), uint(tb)), big.NewInt(1)))
+				if !tsg {
+					vc.setBits(r, m)
+				}
+				return sv{r}
 			}
 		}
 		return v // pointer <-> unsafe.Pointer etc.
